@@ -34,7 +34,7 @@ ASSUMPTIONS = [
     "a window is (t - interval, t]: two messages exactly one interval apart are not in the same window",
 ]
 MIN_NONTRIVIAL = {"quick": 2000, "thorough": 20000}
-REQUIRED_COUNTERS = ["decisions", "refusals", "growth_runs", "integration.commands"]
+REQUIRED_COUNTERS = ["decisions", "refusals", "growth_runs", "growth_runs_exempt", "integration.commands"]
 SHARD_TIMEOUT = {"quick": 500, "thorough": 3000}
 
 A1, A2, AS4, AS6 = "10.0.0.1", "10.0.0.2", "10.9.9.9", "2001:db8::1"
@@ -259,6 +259,28 @@ def run_growth(spec, counters, viols, nontrivial):
         for scope, cmds in rules.items():
             for cmd, rl in cmds.items():
                 maxint, nmax = max(rl)
+                if all(n < 0 for _, n in rl):
+                    # exempt (n = -1): never refused, yet what is remembered about the address must not grow with
+                    # the lifetime of the connection - at most what arrived within the rule's own interval
+                    pace = maxint / 10.0
+                    sizes = []
+                    for L in (400, 1600):
+                        clock = Clock()
+                        lim = make_limiter(rs, clock)
+                        addr = scope if scope not in ("global", "ip") else A1
+                        refused = 0
+                        for _ in range(L):
+                            clock.t += pace
+                            refused += bool(lim.is_limited(addr, [cmd]))
+                        sizes.append((L, max((len(q) for per in lim.recent_commands.values() for q in per.values()), default=0), refused))
+                    counters["growth_runs_exempt"] = counters.get("growth_runs_exempt", 0) + 1
+                    nontrivial.append(h(["growth-exempt", rsi, scope, cmd]))
+                    if sizes[1][1] > 2 * 10 + 2 and sizes[1][1] > sizes[0][1]:
+                        viols.append({"key": "state-growth/exempt", "msg": "rules %s: exempt %s from %s paced at one per %.2fs: retained timestamps %d after %d messages and %d after %d; only %d fall inside the interval"
+                                      % (json.dumps(rs), cmd, addr, pace, sizes[0][1], sizes[0][0], sizes[1][1], sizes[1][0], 10), "replay": {"mode": "growth", "ruleset": rsi}})
+                    if sizes[0][2] or sizes[1][2]:
+                        viols.append({"key": "over-block/exempt-n=-1", "msg": "rules %s: exempt %s from %s was refused %d times" % (json.dumps(rs), cmd, addr, sizes[1][2]), "replay": {"mode": "growth", "ruleset": rsi}})
+                    continue
                 if nmax < 0 or any(n < 0 for _, n in rl):
                     continue
                 # pace: just below the tightest rule
